@@ -13,9 +13,11 @@ cp /verif/known_findings.json $S/verif/ 2>/dev/null
 for p in "$@"; do
   case "$p" in
     -R:*) c=${p#-R:}; git -C /repo show "$c" | (cd $S/repo && patch -R -p1 -s) || { echo "cannot revert $c"; exit 3; } ;;
-    *) (cd $S/repo && patch -p1 -s < "$p") || { echo "patch $p does not apply"; exit 3; } ;;
+    *) p=$(readlink -f "$p"); (cd $S/repo && patch -p1 -s < "$p") || { echo "patch $p does not apply"; exit 3; } ;;
   esac
 done
+# rsync keeps mtimes, which would make cargo believe an older build is still fresh
+find $S/repo/stun-types/src $S/repo/stun-proto/src -name '*.rs' -exec touch {} +
 cd $S/verif/sim && cargo build --release --offline > $S/build.log 2>&1 || { echo "HARNESS-ERROR: build failed"; tail -20 $S/build.log; exit 2; }
 cd $S/verif && VERIF_DIR=$S/verif ./target/release/stunsim check "$ID" "$TIER" > $S/out.log 2>&1; rc=$?
 echo "rc=$rc"; grep -E "^VIOLATION|^  violation|HARNESS|^OK |KNOWN" $S/out.log
